@@ -8,6 +8,7 @@ import (
 	"errors"
 	"fmt"
 	"math/big"
+	"os"
 	"strconv"
 	"strings"
 
@@ -179,7 +180,7 @@ func (c *ctx) checkBS(p bsParams) *failure {
 		}
 		ok, slack := meets(p.target, img, p.add, p.mult, p.dir, bi(1), one18)
 		if slack {
-			c.r.Extra["sum_bsearch_mult_decided_by_quotient_ulp"] = incr(c.r.Extra["sum_bsearch_mult_decided_by_quotient_ulp"])
+			c.slack(cs, x.String(), img.String())
 		}
 		if !ok {
 			return c.fail("bsearch_silent_wrong_input", cs, fmt.Sprintf("returned x=%s with f(x)=%s, which does not meet the tolerance around target %s on the requested side; no error reported",
@@ -205,13 +206,23 @@ func (c *ctx) checkBS(p bsParams) *failure {
 	img := f(x).BigInt()
 	ok, slack := meets(p.target, img, p.add, p.mult, p.dir, one36, one36)
 	if slack {
-		c.r.Extra["sum_bsearch_mult_decided_by_quotient_ulp"] = incr(c.r.Extra["sum_bsearch_mult_decided_by_quotient_ulp"])
+		c.slack(cs, x.String(), fmtDec(img, 36))
 	}
 	if !ok {
 		return c.fail("bsearch_silent_wrong_input", cs, fmt.Sprintf("returned x=%s with f(x)=%s, which does not meet the tolerance around target %s on the requested side; no error reported",
 			x.String(), fmtDec(img, 36), fmtDec(p.target, 36)))
 	}
 	return nil
+}
+
+// slack records a search whose result satisfies the multiplicative tolerance only thanks to the
+// one-ulp allowance for the implementation's rounded quotient |t−a|/min(t,a) (exact ratio above the
+// tolerance by less than one ulp of the quotient).  Counted, not reported.
+func (c *ctx) slack(cs Case, x, img string) {
+	c.r.Extra["sum_bsearch_mult_decided_by_quotient_ulp"] = incr(c.r.Extra["sum_bsearch_mult_decided_by_quotient_ulp"])
+	if dumpAll {
+		fmt.Fprintf(os.Stderr, "SLACK\t%s\tx=%s f(x)=%s\n", cs.sig(), x, img)
+	}
 }
 
 func incr(v interface{}) int64 {
